@@ -256,11 +256,13 @@ def synthetic_identity(ck, collect):
 
     def ctx(stream, triples, mask):
         crs = [it.instantiate(CallResult, [], dict(package=p, test=tname, function=None, results=vec(flags)), None) for p, tname, flags in triples]
-        n = sum(mask)
+        rows = [i for i, m in enumerate(mask) if m]
+        # every array carries its row number (and the stream in the data), so that a value in the wrong place or a missing scatter shows
+        base = 100 if stream == 's1' else 200
         return it.instantiate(ContextResult, [], dict(
             stream_id=stream, results=crs, subset_indexes=Vec.fresh([El(X.TRUE if m else X.FALSE, False) for m in mask], kind='nd', dtype='b1'),
-            data=vec([7] * n, 'f8', 'nd'), tinp=vec(list(range(n)), 'f8', 'nd'), zinp=vec([1] * n, 'f8', 'nd'), lat=vec([2] * n, 'f8', 'nd'),
-            lon=vec([3] * n, 'f8', 'nd')), None)
+            data=vec([base + i for i in rows], 'f8', 'nd'), tinp=vec([10 + i for i in rows], 'f8', 'nd'), zinp=vec([20 + i for i in rows], 'f8', 'nd'),
+            lat=vec([30 + i for i in rows], 'f8', 'nd'), lon=vec([40 + i for i in rows], 'f8', 'nd')), None)
     mask1, mask2 = [True, True, False], [False, False, True]
     scen = [
         ctx('s1', [('qartod', 't', [1, 3]), ('argo', 't', [4, 4]), ('qartod', 'u', [9, 9])], mask1),
@@ -297,6 +299,19 @@ def synthetic_identity(ck, collect):
                             ok = ok and els[i].m is False and X.show(els[i].d) == x
             ck.ob('C06.identity', label, ok, key=f'collect_results_{how}:identity-stream-module-test',
                   what=f'{label}: results that differ only in stream id / module / test name are merged or misplaced: {sorted(got)}')
+            if how == 'list' and ok:
+                # every collected result - also those that shared a ContextResult with other tests - carries the source arrays on covered rows
+                for cr in res:
+                    k = (cr.attrs['stream_id'], cr.attrs['package'], cr.attrs['test'])
+                    covered = [i for i, x in enumerate(want[k]) if x is not None]
+                    base = 100 if k[0] == 's1' else 200
+                    for fld, off in (('data', base), ('tinp', 10), ('zinp', 20), ('lat', 30), ('lon', 40)):
+                        v = cr.attrs.get(fld)
+                        gotv = [None if (not isinstance(v, Vec) or i >= len(v) or v.el(i).m is True) else X.show(v.el(i).d) for i in covered]
+                        wantv = [str(off + i) for i in covered]
+                        ck.ob('C06.axes', f'{label} {k}.{fld}', gotv == wantv, key=f'collect_results_list:{fld}-not-source:several-tests-per-context',
+                              what=f'{label}: collected {k}.{fld} is {gotv} on the covered rows {covered}, the source has {wantv} '
+                                   '(ContextResults holding several test results)')
 
 
 def synthetic_failed_context(ck, collect):
